@@ -1,5 +1,104 @@
-import Heathcliff.Proofs.Word
+import Heathcliff.Proofs.C08A
+import Heathcliff.Proofs.C08B
+
+/- Property theorems only (statements verbatim; proofs are the helper lemmas of Heathcliff/Proofs). -/
 namespace HC.C08
+open HC
+variable {m : Modulus}
+
+theorem incrementMod_exact (h : m.WF) {x : Nat} (hx : x ≤ 2 * m.value - 2) :
+    incrementMod x m = .ok ((x + 1) % m.value) := HC.incrementMod_exact h hx
+
+theorem decrementMod_exact (h : m.WF) {x : Nat} (hx : x < m.value) :
+    decrementMod x m = .ok ((x + m.value - 1) % m.value) := HC.decrementMod_exact h hx
+
+theorem negateMod_exact (h : m.WF) {x : Nat} (hx : x ≤ m.value) :
+    negateMod x m = .ok ((m.value - x) % m.value) := HC.negateMod_exact h hx
+
+/-- halving: for odd q the result is the unique y < q with 2y ≡ x -/
+theorem div2Mod_exact (h : m.WF) (hodd : m.value % 2 = 1) {x : Nat} (hx : x < m.value) :
+    ∃ y, div2Mod x m = .ok y ∧ y < m.value ∧ (2 * y) % m.value = x := HC.div2Mod_exact h hodd hx
+
+theorem addMod_exact (h : m.WF) {x y : Nat} (hx : x < m.value) (hy : y < m.value) :
+    addMod x y m = .ok ((x + y) % m.value) := HC.addMod_exact h hx hy
+
+theorem subMod_exact (h : m.WF) {x y : Nat} (hx : x < m.value) (hy : y < m.value) :
+    subMod x y m = .ok ((x + m.value - y) % m.value) := HC.subMod_exact h hx hy
+
+/-- Barrett reduction of any 128-bit value, any modulus 2 ≤ q < 2^61 (prime or not) -/
+theorem barrett128_exact (h : m.WF) {x0 x1 : Nat} (h0 : x0 < 2^64) (h1 : x1 < 2^64) :
+    barrett128 x0 x1 m = .ok ((x0 + 2^64 * x1) % m.value) := HC.barrett128_exact h h0 h1
+
+theorem barrett64_exact (h : m.WF) {x : Nat} (hx : x < 2^64) :
+    barrett64 x m = .ok (x % m.value) := HC.barrett64_exact h hx
+
+theorem mulMod_exact (h : m.WF) {x y : Nat} (hx : x < 2^64) (hy : y < 2^64) :
+    mulMod x y m = .ok ((x * y) % m.value) := HC.mulMod_exact h hx hy
+
+theorem mulOperand_new (h : m.WF) {y : Nat} (hy : y < m.value) :
+    ∃ o, MulOperand.new y m = .ok o ∧ o.operand = y ∧ o.quotient = y * 2^64 / m.value := HC.mulOperand_new h hy
+
+/-- Harvey lazy multiplication: for EVERY x < 2^64 the result is congruent and below 2q -/
+theorem mulOperandModLazy_spec (h : m.WF) {x y : Nat} (hx : x < 2^64) (hy : y < m.value)
+    {o : MulOperand} (ho : MulOperand.new y m = .ok o) :
+    mulOperandModLazy x o m < 2 * m.value ∧ mulOperandModLazy x o m % m.value = (x * y) % m.value := HC.mulOperandModLazy_spec h hx hy ho
+
+theorem mulOperandMod_exact (h : m.WF) {x y : Nat} (hx : x < 2^64) (hy : y < m.value)
+    {o : MulOperand} (ho : MulOperand.new y m = .ok o) :
+    mulOperandMod x o m = .ok ((x * y) % m.value) := HC.mulOperandMod_exact h hx hy ho
+
+theorem mulAddMod_exact (h : m.WF) {x y z : Nat} (hx : x < 2^64) (hy : y < 2^64) (hz : z < 2^64) :
+    mulAddMod x y z m = .ok ((x * y + z) % m.value) := HC.mulAddMod_exact h hx hy hz
+
+theorem mulOperandAddMod_exact (h : m.WF) {x y z : Nat} (hx : x < 2^64) (hy : y < m.value) (hz : z < 2^64)
+    {o : MulOperand} (ho : MulOperand.new y m = .ok o) :
+    mulOperandAddMod x o z m = .ok ((x * y + z) % m.value) := HC.mulOperandAddMod_exact h hx hy hz ho
+
+/-- dot product: exact whenever the true sum fits in 128 bits
+    (in particular for ≤ 64 summands of factors below 2^61) -/
+theorem dotProductMod_exact (h : m.WF) {xs ys : List Nat} (hl : xs.length = ys.length)
+    (hxs : ∀ x ∈ xs, x < 2^64) (hys : ∀ y ∈ ys, y < 2^64)
+    (hsum : ((xs.zip ys).map (fun p => p.1 * p.2)).sum < 2^128) :
+    dotProductMod xs ys m = .ok (((xs.zip ys).map (fun p => p.1 * p.2)).sum % m.value) := HC.dotProductMod_exact h hl hxs hys hsum
+
+theorem dotProduct_sum_bound {xs ys : List Nat} (hl : xs.length = ys.length) (hn : xs.length ≤ 64)
+    (hxs : ∀ x ∈ xs, x < 2^61) (hys : ∀ y ∈ ys, y < 2^61) :
+    ((xs.zip ys).map (fun p => p.1 * p.2)).sum < 2^128 := HC.dotProduct_sum_bound hl hn hxs hys
+
+/-- multi-word value reduced modulo q, any number of limbs ≥ 1 -/
+theorem moduloUint_exact (h : m.WF) {v : List Nat} (hne : v ≠ []) (hv : ∀ x ∈ v, x < 2^64) :
+    moduloUint v m = .ok (toNat v % m.value) := HC.moduloUint_exact h hne hv
+
+/-- exponentiation (operands already reduced): exponent 0 ↦ 1, exponent 1 ↦ the operand itself (unreduced, as coded),
+    otherwise x^e mod q -/
+theorem exponentiateMod_exact
+    (hmul : ∀ {x y : Nat}, x < 2^64 → y < 2^64 → mulMod x y m = .ok ((x * y) % m.value))
+    (h : m.WF) {x e : Nat} (hx : x < 2^64) (he : e < 2^64) :
+    exponentiateMod x e m = .ok (if e = 0 then 1 else if e = 1 then x else (x ^ e) % m.value) := HC.exponentiateMod_exact hmul h hx he
+
+theorem gcdU64_exact {x y : Nat} (hx : x < 2^64) (hy : y < 2^64) : gcdU64 x y = Nat.gcd x y := HC.gcdU64_exact hx hy
+
+/-- non-adjacent form: digits sum to the value, each digit is ± a power of two with strictly increasing
+    exponents differing by at least 2 -/
+theorem naf_spec {v : Int} (hv : -(2^31 : Int) < v ∧ v < 2^31) :
+    ∃ ds, naf v = .ok ds ∧ ds.sum = v ∧
+      (∀ d ∈ ds, ∃ i : Nat, d = 2^i ∨ d = -(2^i : Int)) ∧
+      List.Pairwise (fun a b => 4 * a.natAbs ≤ b.natAbs) ds := HC.naf_spec hv
+
 theorem modulus_new_wf {v : Nat} {m : Modulus} (h : Modulus.mk? v = .ok m) (hv : v ≠ 0) :
     m.WF ∧ m.value = v := Modulus.mk?_wf h hv
+
+/-- FULL statement for inversion (any `v < 2^64`).  It is FALSE for the code: `xgcd`'s `i64` products overflow for
+    `v ≥ 2^63` with a small modulus (`tryInvert (2^64-1) 2`), see `tryInvert_overflow_witness`.  The documented operand
+    range is `v < q`; the proved theorem `tryInvert_spec_partial` covers all `v < 2^63`. -/
+theorem tryInvert_full_statement_false : ¬ HC.TryInvertStatement := HC.tryInvertStatement_false
+theorem tryInvert_overflow_witness : tryInvert (2^64-1) 2 = .error .overflow := HC.tryInvert_overflow_witness
+theorem tryInvert_spec_partial {v q : Nat} (hq2 : 2 ≤ q) (hq : q < 2^61) (hv : v < 2^64) (hv' : v < 2^63) :
+    (v ≠ 0 ∧ Nat.gcd v q = 1 → ∃ r, tryInvert v q = .ok (some r) ∧ r < q ∧ (r * v) % q = 1) ∧
+    (v = 0 ∨ Nat.gcd v q ≠ 1 → tryInvert v q = .ok none) := HC.tryInvert_spec_partial hq2 hq hv hv'
+
+/-- non-vacuity: a 61-bit modulus is well formed and the premises of the theorems are satisfiable -/
+example : ∃ m, Modulus.mk? 2305843009213693951 = .ok m ∧ m.WF :=
+  ⟨_, rfl, (Modulus.mk?_wf (v := 2305843009213693951) rfl (by decide)).1⟩
+
 end HC.C08
